@@ -9,6 +9,9 @@
 //! sizes per consumer).  States are de-duplicated by the canonical form of the
 //! reference state (consumers and reservations up to renaming).
 //!
+//! After the last step of every history the pools' hidden counters are probed
+//! (see `probe_hidden_state`) and then every reservation is dropped.
+//!
 //! Oracle (exactly the property statement):
 //!  * after every step `pool.reserved()` = sum of the live reservation sizes,
 //!    every `reservation.size()` = model size, and 0 / no tracked consumer once
@@ -410,20 +413,20 @@ fn after_try_grow(
     Ok(())
 }
 
-fn apply(sub: &mut Subject, m: &mut Model, op: Op, info: &mut RunInfo) -> Result<(), String> {
+fn apply(sub: &mut Subject, m: &mut Model, op: Op, info: &mut RunInfo, probe: bool) -> Result<(), String> {
     if let Some(r) = op.slot() {
         if r >= m.res.len() {
             info.disabled = true;
             return Ok(());
         }
     }
-    if op.adds_slot() && m.res.len() >= MAX_RES {
+    if op.adds_slot() && m.res.len() >= MAX_RES && !probe {
         info.disabled = true;
         return Ok(());
     }
     match op {
         Op::Register { spill } => {
-            if m.live_cons() >= MAX_CONS {
+            if m.live_cons() >= MAX_CONS && !probe {
                 info.disabled = true;
                 return Ok(());
             }
@@ -556,6 +559,45 @@ fn apply(sub: &mut Subject, m: &mut Model, op: Op, info: &mut RunInfo) -> Result
     Ok(())
 }
 
+/// Probes of the pools' hidden state, run after the last step of every history
+/// (the subject is fresh per history, so the probes may disturb it).  Without
+/// them a divergence between the pool's private counters (FairSpillPool's
+/// `num_spill` / `spillable` / `unspillable` split, PeakRecordingPool's running
+/// total) and the reference would stay invisible until a later growth decision
+/// and could be lost to state de-duplication.
+///  * bounded pools: a fresh non-spillable consumer (and, for fair pools, a fresh
+///    spillable one) attempts `try_grow(x)` for every x in 1..=limit+1, freeing
+///    after every grant; the ordinary oracle of `try_grow` applies to each
+///    attempt (Greedy: granted iff it fits; Fair: a grant must stay within the
+///    limit / within the fair share computed from the reference state);
+///  * peak-recording pools: `reset_peak()` must set the peak to the current total.
+fn probe_hidden_state(sub: &mut Subject, m: &mut Model, info: &mut RunInfo) -> Result<(), String> {
+    let kind = m.kind;
+    if kind.is_greedy() || kind.is_fair() {
+        for spill in [false, true] {
+            if spill && !kind.is_fair() {
+                continue;
+            }
+            let step = |sub: &mut Subject, m: &mut Model, info: &mut RunInfo, op: Op| -> Result<(), String> {
+                apply(sub, m, op, info, true).map_err(|e| format!("fresh {} consumer, {op:?}: {e}", if spill { "spillable" } else { "non-spillable" }))
+            };
+            step(sub, m, info, Op::Register { spill })?;
+            let r = m.res.len() - 1;
+            for x in 1..=m.limit + 1 {
+                step(sub, m, info, Op::TryGrow { r, s: x })?;
+                step(sub, m, info, Op::Free { r })?;
+            }
+            step(sub, m, info, Op::Drop { r })?;
+            observe(sub, m).map_err(|e| format!("after probing with a fresh consumer: {e}"))?;
+        }
+    }
+    if kind.peaks() {
+        apply(sub, m, Op::ResetPeak, info, true)?;
+        observe(sub, m).map_err(|e| format!("after reset_peak: {e}"))?;
+    }
+    Ok(())
+}
+
 /// Build a fresh pool, replay `c.ops` in lock step with the model.  The oracle
 /// on observables is evaluated after every step when `all_steps`, otherwise only
 /// after the last one (the prefixes were checked at shallower BFS depth).  After
@@ -574,7 +616,7 @@ fn run_case(c: &Case, all_steps: bool, mut trace: Option<&mut Vec<String>>) -> R
         if !all_steps {
             info.findings.clear(); // exploration: a finding is attributed to the history whose last step raises it
         }
-        let r = apply(&mut sub, &mut m, *op, &mut info);
+        let r = apply(&mut sub, &mut m, *op, &mut info, false);
         if let Some(t) = trace.as_deref_mut() {
             let outcome = match &r {
                 Err(e) => format!("VIOLATION {e}"),
@@ -603,6 +645,7 @@ fn run_case(c: &Case, all_steps: bool, mut trace: Option<&mut Vec<String>>) -> R
         }
     }
     info.key = m.key();
+    probe_hidden_state(&mut sub, &mut m, &mut info).map_err(|e| format!("probe after the history: {e}"))?;
     // teardown: drop every reservation, last first; everything must return to zero
     while let Some(res) = sub.res.pop() {
         mc_core::catch(move || drop(res)).map_err(|e| format!("teardown drop: {e}"))?;
@@ -621,7 +664,7 @@ fn run_case(c: &Case, all_steps: bool, mut trace: Option<&mut Vec<String>>) -> R
 }
 
 fn explore(ctx: &Ctx) {
-    let depth = std::env::var("VERIF_C17_DEPTH").ok().and_then(|s| s.parse().ok()).unwrap_or(ctx.pick(7, 9));
+    let depth = std::env::var("VERIF_C17_DEPTH").ok().and_then(|s| s.parse().ok()).unwrap_or(ctx.pick(6, 8));
     ctx.set_extra(
         "bounds",
         json!({"max_depth": depth, "sizes": SIZES, "limit": LIMIT, "max_live_reservations": MAX_RES,
